@@ -31,7 +31,8 @@ META = {
                  "placements) on a virtual-time loop, specification-function oracle, pending-at-quiescence detection",
     "level_text": "All schedules of up to 3 (quick) / 4 (thorough) inputs with every outcome (result, exception, cancelled), "
                   "every completion order, every already-done prefix, list/dict/duplicate forms, Future and native-coroutine "
-                  "inputs, every consumer placement for WaitIterator.next() and every deadline placement for with_timeout "
+                  "inputs, every consumer placement for WaitIterator.next(), every subset of those placements at which the consumer "
+                  "abandons (cancels) a still-pending next() future, and every deadline placement for with_timeout "
                   "are executed against the real combinators; the output's final state is compared with a specification "
                   "function and must be done once the loop is quiescent after the last input finished.",
     "level_note": "Trusts the specification functions in this file and the virtual loop. A cancelled outcome of multi may be "
@@ -41,7 +42,9 @@ META = {
     "engine": "vloop",
 }
 RULE = ("cases are schedules: (combinator, form, per-input kind+outcome, completion order, number already done, "
-        "burst/settled completions, next()-placement bitmap or deadline position); enumerated exhaustively for k <= 3 "
+        "burst/settled completions, next()-placement bitmap [+ bitmap of placements where the pending next() future is "
+        "cancelled by the consumer, directly / through a cancelled awaiting task / through asyncio.wait_for] or deadline "
+        "position); enumerated exhaustively for k <= 3 "
         "(quick) / k <= 4 (thorough) plus seeded random schedules with k <= 6; non-trivial = at least two inputs, or one "
         "input that is cancelled/failed/late; distinct by the case tuple")
 FLOORS = {"quick": 10000, "thorough": 150000}
@@ -49,7 +52,7 @@ ASSUMPTIONS = ["specification functions are correct", "single-threaded use on on
                "deadline never coincides with a completion (half-grid)",
                "order among inputs that were already done when WaitIterator was built is not pinned"]
 REQUIRED_COUNTERS = ["oracle_evals", "quiescence_evals", "multi_cases", "wait_iterator_cases", "with_timeout_cases",
-                     "chain_future_cases", "cancelled_input_cases", "timeouts_expected"]
+                     "chain_future_cases", "cancelled_input_cases", "timeouts_expected", "wait_iterator_next_cancelled"]
 
 OUTCOMES = "rec"     # result, exception, cancelled
 DUP_KEYERROR = "wait_iterator/duplicate-future-KeyError"
@@ -59,7 +62,8 @@ def EXHAUSTIVE(tier):
     k = 3 if tier == "quick" else 4
     return ("multi: k<=%d inputs x {result,exception,cancelled}^k x 3 kind patterns x {list,dict,duplicate-first,"
             "duplicate-last} x all completion orders x all already-done prefixes x {settled,burst}; WaitIterator: k<=%d x "
-            "outcomes x {args,kwargs} x orders x already-done prefixes x all next() placements; with_timeout: single "
+            "outcomes x {args,kwargs} x orders x already-done prefixes x all next() placements x all subsets of the placements "
+            "with a pending next() future cancelled by the consumer; with_timeout: single "
             "Future/coroutine and lists of <=%d x outcomes x orders x already-done x every deadline position x "
             "{absolute,timedelta}; chain_future: {asyncio,concurrent}^2 x outcomes x source-already-done x 5 target states"
             % (k, k, k))
@@ -88,6 +92,30 @@ def multi_cases(kmax):
                                 yield ("multi", form, kinds, outs, order, npre, burst)
 
 
+CANCEL_MODES = ("direct", "task", "wait_for")
+
+
+def wi_cancel_effective(bits, cbits, npre, nslots):
+    """True iff at every placement in `cbits` the consumer calls next() and nothing finished is there to be
+    delivered, so that the future it got is still pending and can be cancelled (generator-side bookkeeping that
+    prunes no-op cancellations; not an oracle)."""
+    avail = npre
+    for slot in range(nslots):
+        waiting = False
+        if bits >> slot & 1:
+            if avail:
+                avail -= 1
+            elif slot < nslots - 1:     # (at the last placement every input is done: nothing left to wait for)
+                waiting = True
+        if cbits >> slot & 1:
+            if not waiting:
+                return False
+            waiting = False
+        if slot < nslots - 1 and not waiting:
+            avail += 1
+    return True
+
+
 def wi_cases(kmax):
     for k in range(1, kmax + 1):
         for outs in itertools.product(OUTCOMES, repeat=k):
@@ -97,6 +125,34 @@ def wi_cases(kmax):
                         nslots = k - npre + 1
                         for bits in range(1 << nslots):
                             yield ("wi", form, ("fut",) * k, outs, order, npre, bits)
+    # the consumer abandons a pending next() future (cancels it, as asyncio.wait_for or a cancelled awaiting task
+    # does) at every subset of the placements where next() had nothing to deliver, then carries on
+    for k in range(1, kmax + 1):
+        for outs in itertools.product(OUTCOMES, repeat=k):
+            for form in ("args", "kwargs"):
+                for order in itertools.permutations(range(k)):
+                    for npre in range(k + 1):
+                        nslots = k - npre + 1
+                        for bits in range(1 << nslots):
+                            for cbits in range(1, 1 << nslots):
+                                if cbits & ~bits or not wi_cancel_effective(bits, cbits, npre, nslots):
+                                    continue
+                                for cmode in (CANCEL_MODES if k <= 2 else CANCEL_MODES[:1]):
+                                    yield ("wi", form, ("fut",) * k, outs, order, npre, (bits, cbits, cmode))
+    # ... and a consumer that, at each of its placements, calls next() until it has to wait (so that it can abandon
+    # several pending next() futures in the course of one iteration)
+    for k in range(1, min(kmax, 3) + 1):
+        for outs in itertools.product(OUTCOMES, repeat=k):
+            for form in (("args", "kwargs") if k <= 2 else ("args",)):
+                for order in itertools.permutations(range(k)):
+                    for npre in range(k):
+                        nslots = k - npre + 1
+                        for bits in range(1 << nslots):
+                            for cbits in range(1, 1 << (nslots - 1)):
+                                if cbits & ~bits:
+                                    continue
+                                cmode = CANCEL_MODES[(bits + cbits + npre) % 3] if k <= 2 else "direct"
+                                yield ("wi", form, ("fut",) * k, outs, order, npre, (bits, cbits, cmode, "drain"))
     # the same future passed twice (positions 0 and 2)
     for form in ("dupargs", "dupkwargs"):
         for outs in itertools.product(OUTCOMES, repeat=2):
@@ -166,7 +222,13 @@ def rand_case(rng):
             form = "list"
         return ("multi", form, kinds, outs, tuple(order), npre, rng.random() < 0.3)
     if comb == "wi":
-        return ("wi", rng.choice(["args", "kwargs"]), ("fut",) * k, outs, tuple(order), npre, rng.getrandbits(k - npre + 1))
+        bits = rng.getrandbits(k - npre + 1)
+        if rng.random() < 0.5:
+            cbits = bits & rng.getrandbits(k - npre + 1)
+            if cbits:
+                return ("wi", rng.choice(["args", "kwargs"]), ("fut",) * k, outs, tuple(order), npre,
+                        (bits, cbits, rng.choice(CANCEL_MODES)) + (("drain",) if rng.random() < 0.7 else ()))
+        return ("wi", rng.choice(["args", "kwargs"]), ("fut",) * k, outs, tuple(order), npre, bits)
     return ("wt", "list", ("fut",) * k, outs, tuple(order), npre,
             (rng.choice(["rel", "abs"]), rng.choice(list(range(k - npre + 1)) + [None])))
 
@@ -189,6 +251,12 @@ def directed_cases():
     yield ("wi", "args", ("fut", "fut"), ("c", "r"), (0, 1), 0, 0b111)
     yield ("wt", "single", ("fut",), ("c",), (0,), 0, ("rel", None))
     yield ("wt", "single", ("fut",), ("c",), (0,), 1, ("rel", None))
+    # the consumer's first next() is abandoned before any input is done (asyncio.wait_for timing out), then the inputs
+    # complete and the consumer resumes: every input must still be yielded once
+    yield ("wi", "args", ("fut", "fut", "fut"), ("r", "e", "r"), (1, 0, 2), 0, (0b0001, 0b0001, "wait_for"))
+    yield ("wi", "kwargs", ("fut", "fut"), ("r", "c"), (0, 1), 0, (0b011, 0b010, "task"))
+    yield ("wi", "args", ("fut",), ("r",), (0,), 0, (0b01, 0b01, "direct"))
+    yield ("wi", "args", ("fut", "fut", "fut"), ("r", "r", "c"), (2, 0, 1), 0, (0b0111, 0b0111, "task", "drain"))
     # the same future passed twice to WaitIterator, everything already done, consumer drains
     yield ("wi", "dupargs", ("fut", "fut"), ("r", "r"), (0, 1), 2, 0b1)
 
@@ -319,6 +387,10 @@ async def run_multi(R, case):
 
 async def run_wi(R, case):
     _, form, kinds, outs, order, npre, bits = case
+    cbits, cmode, drain = 0, None, False
+    if isinstance(bits, (tuple, list)):
+        drain = len(bits) > 3 and bits[3] == "drain"
+        bits, cbits, cmode = bits[:3]
     k = len(kinds)
     dup = form in ("dupargs", "dupkwargs")
     inps = R.inps = [Inp(i, "fut", outs[i]) for i in range(k)]
@@ -357,13 +429,43 @@ async def run_wi(R, case):
             deliveries.append((idx, outcome_of(f), next((j for j, x in enumerate(inps) if x.obj is cf), None)))
             cur[0] = None
 
+    async def abandon():
+        """The consumer gives up on the pending future it got from next() - the way asyncio.wait_for, a cancelled
+        awaiting task or a plain Future.cancel() does - and will call next() again later."""
+        f = cur[0]
+        if cmode == "direct":
+            f.cancel()
+        elif cmode == "task":
+            t = asyncio.ensure_future(_await_it(f))
+            await vloop.settle()
+            t.cancel()
+            await asyncio.gather(t, return_exceptions=True)
+        else:
+            t = asyncio.ensure_future(asyncio.wait_for(f, 0.25))
+            await asyncio.sleep(0.5)
+            await asyncio.gather(t, return_exceptions=True)
+        await vloop.settle()
+        if not f.cancelled():
+            return R.fail("wait_iterator/pending-next-future-not-cancellable",
+                          "the pending future returned by next() could not be cancelled by its consumer",
+                          {"mode": cmode, "state": outcome_of(f)})
+        R.ctx.count("wait_iterator_next_cancelled")
+        cur[0] = None
+
     rest = list(order[npre:])
     for slot in range(len(rest) + 1):
         if bits >> slot & 1:
-            if not want_next():
+            for _ in range(len(pos) + 1 if drain else 1):
+                if not want_next():
+                    return
+                await vloop.settle()
+                poll()
+                if cur[0] is not None:
+                    break
+        if cbits >> slot & 1 and cur[0] is not None and not cur[0].done():
+            await abandon()
+            if R.failed:
                 return
-            await vloop.settle()
-            poll()
         if slot < len(rest):
             inps[rest[slot]].complete()
             await vloop.settle()
